@@ -75,6 +75,142 @@ def gen_problem(rng, idx):
     return pb
 
 
+def gen_fun(rng, kind, times, aux):
+    """an imposed strain / stress given by a formula of t (and possibly of an LPI evolution that ends before the last time): unit * f"""
+    import fevo
+    unit, bound = (EUNIT, 12.0) if kind == "E" else (MPA, 100.0)
+    leaves = [("t",), ("t",)] + [("v", n) for n in aux]
+    grid = [times[0] + (times[-1] - times[0]) * k / 64.0 for k in range(65)]
+    while True:
+        inner = fevo.gen(rng, rng.choice([1, 2, 3]), leaves)
+        if not (fevo.uses_t(inner) or fevo.names(inner)):
+            continue
+        f = mtlib.FunEvo(("*", ("c", unit), inner), aux, times)
+        vals = [fevo.value(inner, f.env(), t) for t in grid]
+        if all(v is not None and abs(v[0]) <= bound and v[1] < 1e-9 for v in vals) and max(abs(v[0]) for v in vals) >= 0.25:
+            return f
+
+
+def gen_problem_fun(rng, idx):
+    """problems whose imposed strains / stresses are functions of t (FunctionEvolution), mixed with LPI evolutions; the formulas may use an LPI
+    evolution whose last point comes before the last time (the value must be held)"""
+    pb = gen_problem(rng, idx)
+    pb["name"] = "f%03d" % idx
+    pb.pop("dyn", None)
+    pb.pop("dpmax", None)
+    times = pb["times"]
+    aux = {}
+    if rng.random() < 0.6:
+        aux["p"] = gen_points(rng, times[0], times[-1], 1.0, 4, True)
+    pb["evolutions"] = sorted(aux.items())
+    imposed = []
+    for j, (kind, comp, pts) in enumerate(pb["imposed"]):
+        if j == 0 or rng.random() < 0.5:
+            pts = gen_fun(rng, kind, times, aux)
+        imposed.append((kind, comp, pts))
+    pb["imposed"] = imposed
+    return pb
+
+
+def gen_problem_nl(rng, idx):
+    """problems with a @NonLinearConstraint (normalisation Strain or Stress) on the first normal components, one driven component"""
+    import fevo
+    beh = rng.choice(["VElas", "VNorton"])
+    hyp = rng.choice(["Tridimensional", "Axisymmetrical", "GeneralisedPlaneStrain"])
+    en, sn, _ = mtlib.HYPS[hyp]
+    times = [0.0]
+    for _ in range(rng.randint(2, 4)):
+        times.append(times[-1] + rng.choice([0.25, 0.5, 1.0]))
+    E, S = [("v", x) for x in en], [("v", x) for x in sn]
+    aux = {}
+    kind = rng.choice(["iso", "ratio", "square", "pressure", "evs", "sq_stress" if beh == "VElas" else "iso"])
+    drive = ("E", 0, gen_points(rng, times[0], times[-1], EUNIT, 8, rng.random() < 0.5))
+    if kind == "iso":
+        nl = ("Strain", ("+", ("+", E[0], E[1]), E[2]))
+    elif kind == "ratio":
+        nl = ("Stress", ("-", S[1], ("*", ("c", rng.choice([0.5, 0.25, 2.0])), S[0])))
+    elif kind == "square":
+        nl = ("Strain", ("-", E[1], ("*", ("c", rng.choice([1.0, 8.0])), ("*", E[0], E[0]))))
+    elif kind == "pressure":
+        aux["p"] = gen_points(rng, times[0], times[-1], MPA, 60, True)
+        nl = ("Stress", ("-", ("+", ("+", S[0], S[1]), S[2]), ("*", ("c", 3.0), ("v", "p"))))
+    elif kind == "evs":
+        aux["p"] = gen_points(rng, times[0], times[-1], MPA, 60, True)
+        drive = None
+        nl = ("Stress", ("-", S[0], ("v", "p")))
+    else:
+        nl = ("Stress", ("-", S[1], ("/", ("*", S[0], S[0]), ("c", float(2 ** 28)))))
+    pb = dict(name="n%03d" % idx, hyp=hyp, beh=beh, young=float(rng.choice([2 ** 37, 150e9])), nu=rng.choice([0.25, 0.3]),
+              imposed=[drive] if drive else [], times=times, evolutions=sorted(aux.items()), nl=[nl], nl_kind=kind)
+    if rng.random() < 0.3:
+        pb["eeps"] = rng.choice([1e-10, 1e-11])
+    if rng.random() < 0.3:
+        pb["seps"] = rng.choice([1.0, 1e-2])
+    return pb
+
+
+def gen_problem_evt(rng, idx):
+    """problems with @Event and constraints switched on / off by events (options active, activating_events, desactivating_events); the events
+    are placed at requested times; every problem also has an event that concerns no constraint"""
+    beh = rng.choice(["VElas", "VNorton"])
+    hyp = rng.choice(mtlib.ELASTIC_HYPS)
+    en, sn, undriven = mtlib.HYPS[hyp]
+    times = [0.0]
+    for _ in range(rng.randint(4, 6)):
+        times.append(times[-1] + rng.choice([0.5, 1.0]))
+    comps = [k for k in range(len(en)) if k not in undriven]
+    rng.shuffle(comps)
+    imposed = []
+    for k in comps[:rng.randint(1, 2)]:
+        kind = rng.choice("ES")
+        imposed.append((kind, k, gen_points(rng, times[0], times[-1], EUNIT if kind == "E" else MPA, 12 if kind == "E" else 120, False)))
+    inner = sorted(rng.sample(times[1:-1], min(3, len(times) - 2)))
+    mode = rng.choice(["off", "off-on", "late"])
+    if mode == "off" or len(inner) < 3 and mode == "off-on":      # switched off by its event, then an event that is not its own
+        events = [("stop", inner[0]), ("other", inner[1])]
+        a = dict(active=True, act=[], deact=["stop"])
+    elif mode == "off-on":
+        events = [("stop", inner[0]), ("other", inner[1]), ("go", inner[2])]
+        a = dict(active=True, act=["go"], deact=["stop"])
+    else:                                                          # declared inactive, an unrelated event comes before its activating event
+        events = [("other", inner[0]), ("go", inner[1])]
+        a = dict(active=False, act=["go"], deact=[])
+    return dict(name="e%03d" % idx, hyp=hyp, beh=beh, young=float(rng.choice([2 ** 37, 150e9])), nu=rng.choice([0.25, 0.3]), imposed=imposed, times=times,
+                events=events, activity={0: a}, evt_mode=mode)
+
+
+def check_nl(pb, rows):
+    """the @NonLinearConstraint of the problem on the rows of the result file: |c(strains, stresses, evolutions at the output time)| within the
+    tolerance of its normalisation policy (eeps for Strain, seps for Stress); c evaluated in exact arithmetic on the printed values (17 digits),
+    the bound of the rounding error of a binary64 evaluation of the formula is added to the tolerance"""
+    import fevo
+    bad, n = [], 0
+    en, sn, _ = mtlib.HYPS[pb["hyp"]]
+    ndv = len(en)
+    eeps, seps = pb.get("eeps") or DEFAULT_EEPS, pb.get("seps") or DEFAULT_SEPS
+    aux = dict(pb.get("evolutions", []))
+    for policy, expr in pb.get("nl", []):
+        eps = eeps if policy == "Strain" else seps
+        for r in rows[1:]:
+            t = r[0]
+            if len(r) < 1 + 2 * ndv or not all(math.isfinite(x) for x in r[:1 + 2 * ndv]):
+                break
+            env = {}
+            for k in range(ndv):
+                env[en[k]] = (lambda x: lambda _t: (fevo.MPF(x), fevo.MPF(0)))(r[1 + k])
+                env[sn[k]] = (lambda x: lambda _t: (fevo.MPF(x), fevo.MPF(0)))(r[1 + ndv + k])
+            for nm, pts in aux.items():
+                env[nm] = (lambda d: lambda t_: fevo.frac(mtlib.lpi_spec(d, t_), 1e-13 * max(abs(v) for _, v in d)))(pts)
+            v = fevo.value(expr, env, t)
+            n += 1
+            if v is None or not abs(v[0]) <= fevo.MPF(eps) + 4 * v[1]:
+                bad.append(("nl:%s:%s" % (fevo.text(expr), t.hex()), "at output time %r the constraint @NonLinearConstraint<%s> '%s' has the value %s on the printed state (strains %r, stresses %r%s), "
+                            "criterion %r" % (t, policy, fevo.text(expr), None if v is None else fevo.nstr(v[0], 12), r[1:1 + ndv], r[1 + ndv:1 + 2 * ndv],
+                                              "".join(", %s = %r" % (nm, float(mtlib.lpi_spec(p, t))) for nm, p in aux.items()), eps)))
+                break
+    return bad, n
+
+
 def model_case(pb, k, script, q):
     """Gallina term: the time loop of the model on step k of the problem with the scripted outcomes of the attempts"""
     ti, te = pb["times"][k], pb["times"][k + 1]
@@ -121,12 +257,24 @@ def check_run(pb, rc, out, rows, attempts, who):
         bad.append(("period-count", "%d accepted steps reported, %d rows after the initial one" % (periods, len(rows) - 1)))
     # ---- at every output time after the first: imposed components equal their evolution, free components carry no force
     free = [k for k in range(ndv) if k not in undriven and all(c != k for _, c, _ in pb["imposed"])]
+    if pb.get("nl"):
+        # a non linear constraint adds lambda * dc/de_i (and lambda * dc/ds_j * K_ji, for every i) to the equation of component i: a
+        # component whose strain enters a constraint is not force-free, and none is when a stress enters a constraint
+        import fevo
+        used = set().union(*[fevo.names(e) for _, e in pb["nl"]])
+        free = [] if used & set(sn) else [k for k in free if en[k] not in used]
+        nbad, nrows = check_nl(pb, rows)
+        bad.extend(nbad)
+        st["nl_rows"] = nrows
     for r in rows[1:]:
         t = r[0]
         if len(r) < 1 + 2 * ndv or not all(math.isfinite(x) for x in r):
             bad.append(("not-finite", "row at time %r of a %s run contains non finite or missing values: %r" % (t, "completed" if st["completed"] else "stopped", r[:1 + 2 * ndv])))
             break
-        for kind, comp, pts in mtlib.all_imposed(pb):
+        on, off = mtlib.imposed_at(pb, t)
+        # does the activity of the constraints, as the code found in the pinned tree computes it, differ from the documented one on this step?
+        evt = bool(pb.get("activity")) and mtlib.imposed_at(pb, t, mtlib.treat_event_found) != (on, off)
+        for kind, comp, pts in on:
             exp = mtlib.lpi_spec(pts, t)
             got = r[1 + comp] if kind == "E" else r[1 + ndv + comp]
             scale = max([abs(v) for _, v in pts] + [abs(float(exp))])
@@ -136,14 +284,19 @@ def check_run(pb, rc, out, rows, attempts, who):
                 st["tail_rows"] += 1
             if not abs(Fraction(got) - exp) <= Fraction(tol):
                 nm = (en if kind == "E" else sn)[comp]
-                bad.append(("imposed:%s:%s" % (nm, t.hex()), "at output time %r the imposed %s %s is %r but its evolution %s gives %r (difference %.3g, tolerance %.3g)%s" % (
+                bad.append(("event-activity" if evt else "imposed:%s:%s" % (nm, t.hex()), "at output time %r the imposed %s %s is %r but its evolution %s gives %r (difference %.3g, tolerance %.3g)%s" % (
                     t, "strain" if kind == "E" else "stress", nm, got, mtlib.evo_text(pts), float(exp), abs(got - float(exp)), tol,
                     "; the time is after the last point of the evolution, whose last value must be held" if last is not None and t > last else "")))
                 break
-        for k in free:
+        for k in free + off:
             if not abs(r[1 + ndv + k]) <= seps * (1 + 1e-9):
-                bad.append(("free:%s:%s" % (sn[k], t.hex()), "at output time %r the stress %s conjugated to the free strain component is %r (criterion %r)" % (t, sn[k], r[1 + ndv + k], seps)))
+                bad.append(("event-activity" if evt else "free:%s:%s" % (sn[k], t.hex()), "at output time %r the stress %s conjugated to the free strain component is %r (criterion %r)%s" % (
+                    t, sn[k], r[1 + ndv + k], seps, "; the constraint on that component is switched off during this step (events %r, options %r)" % (
+                        pb.get("events"), pb.get("activity")) if k in off else "")))
                 break
+        if pb.get("activity"):
+            st["evt_rows"] = st.get("evt_rows", 0) + 1
+            st["evt_off_rows"] = st.get("evt_off_rows", 0) + int(bool(off))
     # ---- attempts (residual file): chain of accepted steps inside each requested step, sub-step budget, norm test at acceptance
     steps = []
     if attempts is not None:
@@ -182,7 +335,7 @@ def check_run(pb, rc, out, rows, attempts, who):
                         elif n > itmax:
                             why = "%d iterations with a maximum of %d" % (n, itmax)
                         else:
-                            for kind, comp, pts in mtlib.all_imposed(pb):
+                            for kind, comp, pts in mtlib.imposed_at(pb, b)[0]:
                                 if kind == "E" and len(u1) > comp:
                                     exp = float(mtlib.lpi_spec(pts, b))
                                     if not abs(u1[comp] - exp) < eeps + 64 * 2.0 ** -52 * max(abs(exp), max(abs(v) for _, v in pts)):
